@@ -569,11 +569,53 @@ package nfa
 //@ spec func ch4(b *Builder, s StateID, end StateID) bool = int(s) < len(b.states) && b.states[s].kind == StateByteRange && ch3(b, b.states[s].next, end)
 //@ spec func box4ok(l0 byte, h0 byte, l1 byte, h1 byte, l2 byte, h2 byte, l3 byte, h3 byte) bool = 240 <= l0 && l0 <= h0 && h0 <= 244 && 128 <= l1 && l1 <= h1 && h1 <= 191 && 128 <= l2 && l2 <= h2 && h2 <= 191 && 128 <= l3 && l3 <= h3 && h3 <= 191 && (l0 == h0 || (l1 == 128 && h1 == 191 && l2 == 128 && h2 == 191 && l3 == 128 && h3 == 191)) && (l1 == h1 || (l2 == 128 && h2 == 191 && l3 == 128 && h3 == 191)) && (l2 == h2 || (l3 == 128 && h3 == 191))
 
-// buildUTF8NonASCIIBranches builds its chains through a closure that captures the compiler: closures with free
-// variables are outside govc's subset, so the cover protocol (dec4/ch4/box4ok above are ready for it) is not checked
-// for it: ASSUMED to cover U+0080..U+10FFFF without the surrogates.
-//@ trusted func (*Compiler).buildUTF8NonASCIIBranches
+// "every valid multi-byte sequence": the eight chains cover U+0080..U+10FFFF without the surrogates, in order. The
+// continuation states come from a local closure, which govc verifies in place (free variables bound to the captured
+// locals); AddByteRange#k counts the calls written in this function, not those inside the closure.
+//@ func (*Compiler).buildUTF8NonASCIIBranches
+//@   props C15
+//@   opt safety=off
+//@   opt frame=off
+//@   requires bOK(c)
 //@   modifies c.builder.states, c.builder.states[*], c.builder.byteClassSet.*
+//@   ghost var nxt = 0x80
+//@   after call AddByteRange#1: ch2(c.builder, lastcall, endState)
+//@   after call AddByteRange#1: box2ok(c.builder.states[lastcall].lo, c.builder.states[lastcall].hi, c.builder.states[c.builder.states[lastcall].next].lo, c.builder.states[c.builder.states[lastcall].next].hi)
+//@   after call AddByteRange#1: dec2(c.builder.states[lastcall].lo, c.builder.states[c.builder.states[lastcall].next].lo) == nxt
+//@   after call AddByteRange#1: ghost nxt = skipS(dec2(c.builder.states[lastcall].hi, c.builder.states[c.builder.states[lastcall].next].hi) + 1)
+//@   after call AddByteRange#3: ch3(c.builder, lastcall, endState)
+//@   after call AddByteRange#3: box3ok(c.builder.states[lastcall].lo, c.builder.states[lastcall].hi, c.builder.states[c.builder.states[lastcall].next].lo, c.builder.states[c.builder.states[lastcall].next].hi, c.builder.states[c.builder.states[c.builder.states[lastcall].next].next].lo, c.builder.states[c.builder.states[c.builder.states[lastcall].next].next].hi)
+//@   after call AddByteRange#3: dec3(c.builder.states[lastcall].lo, c.builder.states[c.builder.states[lastcall].next].lo, c.builder.states[c.builder.states[c.builder.states[lastcall].next].next].lo) == nxt
+//@   after call AddByteRange#3: dec3(c.builder.states[lastcall].hi, c.builder.states[c.builder.states[lastcall].next].hi, c.builder.states[c.builder.states[c.builder.states[lastcall].next].next].hi) < 0xD800 || dec3(c.builder.states[lastcall].lo, c.builder.states[c.builder.states[lastcall].next].lo, c.builder.states[c.builder.states[c.builder.states[lastcall].next].next].lo) > 0xDFFF
+//@   after call AddByteRange#3: ghost nxt = skipS(dec3(c.builder.states[lastcall].hi, c.builder.states[c.builder.states[lastcall].next].hi, c.builder.states[c.builder.states[c.builder.states[lastcall].next].next].hi) + 1)
+//@   after call AddByteRange#4: ch3(c.builder, lastcall, endState)
+//@   after call AddByteRange#4: box3ok(c.builder.states[lastcall].lo, c.builder.states[lastcall].hi, c.builder.states[c.builder.states[lastcall].next].lo, c.builder.states[c.builder.states[lastcall].next].hi, c.builder.states[c.builder.states[c.builder.states[lastcall].next].next].lo, c.builder.states[c.builder.states[c.builder.states[lastcall].next].next].hi)
+//@   after call AddByteRange#4: dec3(c.builder.states[lastcall].lo, c.builder.states[c.builder.states[lastcall].next].lo, c.builder.states[c.builder.states[c.builder.states[lastcall].next].next].lo) == nxt
+//@   after call AddByteRange#4: dec3(c.builder.states[lastcall].hi, c.builder.states[c.builder.states[lastcall].next].hi, c.builder.states[c.builder.states[c.builder.states[lastcall].next].next].hi) < 0xD800 || dec3(c.builder.states[lastcall].lo, c.builder.states[c.builder.states[lastcall].next].lo, c.builder.states[c.builder.states[c.builder.states[lastcall].next].next].lo) > 0xDFFF
+//@   after call AddByteRange#4: ghost nxt = skipS(dec3(c.builder.states[lastcall].hi, c.builder.states[c.builder.states[lastcall].next].hi, c.builder.states[c.builder.states[c.builder.states[lastcall].next].next].hi) + 1)
+//@   after call AddByteRange#6: ch3(c.builder, lastcall, endState)
+//@   after call AddByteRange#6: box3ok(c.builder.states[lastcall].lo, c.builder.states[lastcall].hi, c.builder.states[c.builder.states[lastcall].next].lo, c.builder.states[c.builder.states[lastcall].next].hi, c.builder.states[c.builder.states[c.builder.states[lastcall].next].next].lo, c.builder.states[c.builder.states[c.builder.states[lastcall].next].next].hi)
+//@   after call AddByteRange#6: dec3(c.builder.states[lastcall].lo, c.builder.states[c.builder.states[lastcall].next].lo, c.builder.states[c.builder.states[c.builder.states[lastcall].next].next].lo) == nxt
+//@   after call AddByteRange#6: dec3(c.builder.states[lastcall].hi, c.builder.states[c.builder.states[lastcall].next].hi, c.builder.states[c.builder.states[c.builder.states[lastcall].next].next].hi) < 0xD800 || dec3(c.builder.states[lastcall].lo, c.builder.states[c.builder.states[lastcall].next].lo, c.builder.states[c.builder.states[c.builder.states[lastcall].next].next].lo) > 0xDFFF
+//@   after call AddByteRange#6: ghost nxt = skipS(dec3(c.builder.states[lastcall].hi, c.builder.states[c.builder.states[lastcall].next].hi, c.builder.states[c.builder.states[c.builder.states[lastcall].next].next].hi) + 1)
+//@   after call AddByteRange#7: ch3(c.builder, lastcall, endState)
+//@   after call AddByteRange#7: box3ok(c.builder.states[lastcall].lo, c.builder.states[lastcall].hi, c.builder.states[c.builder.states[lastcall].next].lo, c.builder.states[c.builder.states[lastcall].next].hi, c.builder.states[c.builder.states[c.builder.states[lastcall].next].next].lo, c.builder.states[c.builder.states[c.builder.states[lastcall].next].next].hi)
+//@   after call AddByteRange#7: dec3(c.builder.states[lastcall].lo, c.builder.states[c.builder.states[lastcall].next].lo, c.builder.states[c.builder.states[c.builder.states[lastcall].next].next].lo) == nxt
+//@   after call AddByteRange#7: dec3(c.builder.states[lastcall].hi, c.builder.states[c.builder.states[lastcall].next].hi, c.builder.states[c.builder.states[c.builder.states[lastcall].next].next].hi) < 0xD800 || dec3(c.builder.states[lastcall].lo, c.builder.states[c.builder.states[lastcall].next].lo, c.builder.states[c.builder.states[c.builder.states[lastcall].next].next].lo) > 0xDFFF
+//@   after call AddByteRange#7: ghost nxt = skipS(dec3(c.builder.states[lastcall].hi, c.builder.states[c.builder.states[lastcall].next].hi, c.builder.states[c.builder.states[c.builder.states[lastcall].next].next].hi) + 1)
+//@   after call AddByteRange#9: ch4(c.builder, lastcall, endState)
+//@   after call AddByteRange#9: box4ok(c.builder.states[lastcall].lo, c.builder.states[lastcall].hi, c.builder.states[c.builder.states[lastcall].next].lo, c.builder.states[c.builder.states[lastcall].next].hi, c.builder.states[c.builder.states[c.builder.states[lastcall].next].next].lo, c.builder.states[c.builder.states[c.builder.states[lastcall].next].next].hi, c.builder.states[c.builder.states[c.builder.states[c.builder.states[lastcall].next].next].next].lo, c.builder.states[c.builder.states[c.builder.states[c.builder.states[lastcall].next].next].next].hi)
+//@   after call AddByteRange#9: dec4(c.builder.states[lastcall].lo, c.builder.states[c.builder.states[lastcall].next].lo, c.builder.states[c.builder.states[c.builder.states[lastcall].next].next].lo, c.builder.states[c.builder.states[c.builder.states[c.builder.states[lastcall].next].next].next].lo) == nxt
+//@   after call AddByteRange#9: ghost nxt = skipS(dec4(c.builder.states[lastcall].hi, c.builder.states[c.builder.states[lastcall].next].hi, c.builder.states[c.builder.states[c.builder.states[lastcall].next].next].hi, c.builder.states[c.builder.states[c.builder.states[c.builder.states[lastcall].next].next].next].hi) + 1)
+//@   after call AddByteRange#10: ch4(c.builder, lastcall, endState)
+//@   after call AddByteRange#10: box4ok(c.builder.states[lastcall].lo, c.builder.states[lastcall].hi, c.builder.states[c.builder.states[lastcall].next].lo, c.builder.states[c.builder.states[lastcall].next].hi, c.builder.states[c.builder.states[c.builder.states[lastcall].next].next].lo, c.builder.states[c.builder.states[c.builder.states[lastcall].next].next].hi, c.builder.states[c.builder.states[c.builder.states[c.builder.states[lastcall].next].next].next].lo, c.builder.states[c.builder.states[c.builder.states[c.builder.states[lastcall].next].next].next].hi)
+//@   after call AddByteRange#10: dec4(c.builder.states[lastcall].lo, c.builder.states[c.builder.states[lastcall].next].lo, c.builder.states[c.builder.states[c.builder.states[lastcall].next].next].lo, c.builder.states[c.builder.states[c.builder.states[c.builder.states[lastcall].next].next].next].lo) == nxt
+//@   after call AddByteRange#10: ghost nxt = skipS(dec4(c.builder.states[lastcall].hi, c.builder.states[c.builder.states[lastcall].next].hi, c.builder.states[c.builder.states[c.builder.states[lastcall].next].next].hi, c.builder.states[c.builder.states[c.builder.states[c.builder.states[lastcall].next].next].next].hi) + 1)
+//@   after call AddByteRange#12: ch4(c.builder, lastcall, endState)
+//@   after call AddByteRange#12: box4ok(c.builder.states[lastcall].lo, c.builder.states[lastcall].hi, c.builder.states[c.builder.states[lastcall].next].lo, c.builder.states[c.builder.states[lastcall].next].hi, c.builder.states[c.builder.states[c.builder.states[lastcall].next].next].lo, c.builder.states[c.builder.states[c.builder.states[lastcall].next].next].hi, c.builder.states[c.builder.states[c.builder.states[c.builder.states[lastcall].next].next].next].lo, c.builder.states[c.builder.states[c.builder.states[c.builder.states[lastcall].next].next].next].hi)
+//@   after call AddByteRange#12: dec4(c.builder.states[lastcall].lo, c.builder.states[c.builder.states[lastcall].next].lo, c.builder.states[c.builder.states[c.builder.states[lastcall].next].next].lo, c.builder.states[c.builder.states[c.builder.states[c.builder.states[lastcall].next].next].next].lo) == nxt
+//@   after call AddByteRange#12: ghost nxt = skipS(dec4(c.builder.states[lastcall].hi, c.builder.states[c.builder.states[lastcall].next].hi, c.builder.states[c.builder.states[c.builder.states[lastcall].next].next].hi, c.builder.states[c.builder.states[c.builder.states[c.builder.states[lastcall].next].next].next].hi) + 1)
+//@   ensures nxt == 0x110000
 
 //@ func (*Compiler).compileUnicodeClassLarge
 //@   props C15
